@@ -285,7 +285,10 @@ pub fn run_in_child(ctx: &Ctx, kind: &str, texts: &[String], timeout: Duration) 
         Ok(e) => e,
         Err(e) => return ChildVerdict::Broken(format!("current_exe: {e}")),
     };
-    let child = Command::new(exe).arg("worker").arg(kind).arg(&infile).stdout(Stdio::piped()).stderr(Stdio::null()).spawn();
+    let mut cmd = Command::new(exe);
+    cmd.arg("worker").arg(kind).arg(&infile).stdout(Stdio::piped()).stderr(Stdio::null());
+    crate::engine::die_with_parent(&mut cmd);
+    let child = cmd.spawn();
     let mut child = match child {
         Ok(c) => c,
         Err(e) => {
@@ -433,9 +436,9 @@ pub fn c07_run(ctx: &Ctx) -> i32 {
     let named: Vec<(String, String)> = vals.iter().map(|r| any_text(r)).map(|(t, f)| (f.to_string(), t)).collect();
     c07_children(ctx, &mut rep, "E4-child-generated", &named, 500, Duration::from_secs(120));
     if ctx.tier == Tier::Thorough {
-        crate::fuzzrun::run_into(ctx, &mut rep, crate::fuzzrun::Campaign { target: "text_frontend", prop: "C07", runs_total: (ctx.scale * 4_000_000.0) as u64, max_len: 4096, seeds: crate::fuzzrun::text_seeds(), dict: true });
-        crate::fuzzrun::run_into(ctx, &mut rep, crate::fuzzrun::raw_campaign("C07", (ctx.scale * 100_000.0) as u64));
-        crate::fuzzrun::run_into(ctx, &mut rep, crate::fuzzrun::Campaign { target: "grammar_struct", prop: "C07", runs_total: (ctx.scale * 400_000.0) as u64, max_len: 300, seeds: vec![vec![0u8; 40], (0u8..200).collect()], dict: false });
+        crate::fuzzrun::run_into(ctx, &mut rep, crate::fuzzrun::Campaign { target: "text_frontend", prop: "C07", runs_total: (ctx.scale * 20_000_000.0) as u64, max_len: 4096, seeds: crate::fuzzrun::text_seeds(), dict: true });
+        crate::fuzzrun::run_into(ctx, &mut rep, crate::fuzzrun::raw_campaign("C07", (ctx.scale * 500_000.0) as u64));
+        crate::fuzzrun::run_into(ctx, &mut rep, crate::fuzzrun::Campaign { target: "grammar_struct", prop: "C07", runs_total: (ctx.scale * 1_000_000.0) as u64, max_len: 300, seeds: vec![vec![0u8; 40], (0u8..200).collect()], dict: false });
     }
     quota_check(&mut rep, &["ref:lexically-invalid", "ref:lexes-but-does-not-parse", "ref:parses-but-statically-invalid", "ref:fully-valid", "outcome:ok", "outcome:table-conflict"]);
     rep.finish()
@@ -617,7 +620,7 @@ pub fn c14_run(ctx: &Ctx) -> i32 {
     rep.absorb("E1-proptest-threads", out);
     c14_processes(ctx, &mut rep);
     if ctx.tier == Tier::Thorough {
-        crate::fuzzrun::run_into(ctx, &mut rep, crate::fuzzrun::Campaign { target: "grammar_struct", prop: "C14", runs_total: (ctx.scale * 200_000.0) as u64, max_len: 300, seeds: vec![vec![1u8; 40], (0u8..200).collect()], dict: false });
+        crate::fuzzrun::run_into(ctx, &mut rep, crate::fuzzrun::Campaign { target: "grammar_struct", prop: "C14", runs_total: (ctx.scale * 300_000.0) as u64, max_len: 300, seeds: vec![vec![1u8; 40], (0u8..200).collect()], dict: false });
     }
     quota_check(&mut rep, &["outcome:ok", "outcome:table-conflict", "outcome:validation-error"]);
     rep.finish()
